@@ -89,7 +89,10 @@ def opDtw (j : Json) : Except String Json := do
   let m : Cost := if getBoolD j "prune" false then ed else s.maxDist
   let mld := if engineC then s.mldC else s.mldPy
   let prune := getBoolD j "prune" false
-  let model := distModel g m mld (if engineC then !prune else true)
+  let both := prune && s.maxDistI.isSome
+  let mMin : Cost := if ed ≤ s.maxDist then ed else s.maxDist
+  let model := if both then (if engineC then distModelBoth g ed s.maxDist mld else distModel g mMin mld true)
+    else distModel g m mld (if engineC then !prune else true)
   let spec := dtwSpec g
   let specFull := distSpec g mld
   let mut out : List (String × Json) := [("model", costJ model), ("spec", costJ spec),
